@@ -163,13 +163,16 @@ Definition auth_fits (h : host) (a : auth) : Prop :=
   | ABearer t => tok_fits h SchBearer t
   end.
 
+Section WithParse.
+Variable parse : str -> scheme * params.
+
 (* registry h advertised this realm in a Bearer challenge answering a send of this request *)
 Definition advertised (h : host) (realm : str) (pre : list event) : Prop :=
   exists a fr hdr ps, In (SReg h a fr, A401 hdr) pre /\
-                      parse_challenge hdr = Ch SchBearer ps /\ get_param s_realm ps = realm.
+                      parse hdr = (SchBearer, ps) /\ get_param s_realm ps = realm.
 
 Definition basic_challenged (h : host) (pre : list event) : Prop :=
-  exists a fr hdr ps, In (SReg h a fr, A401 hdr) pre /\ parse_challenge hdr = Ch SchBasic ps.
+  exists a fr hdr ps, In (SReg h a fr, A401 hdr) pre /\ parse hdr = (SchBasic, ps).
 
 Definition send_ok (h : host) (pre : list event) (s : send) : Prop :=
   match s with
@@ -249,7 +252,7 @@ Ltac crush :=
 
 Lemma do_request_ok clean cf c rq script :
   cache_ok c ->
-  let '(evs, c', r) := do_request clean cf c rq script in
+  let '(evs, c', r) := do_request clean parse cf c rq script in
   cache_ok c' /\ trace_ok_from (rq_host rq) [] evs.
 Proof.
   intro H. unfold do_request.
@@ -259,7 +262,7 @@ Proof.
             | Some SchBasic => _ | Some SchBearer => _ | _ => _ end) as [attempted a1].
   simpl in H1.
   destruct script as [|[| hdr | id | | ] script1]; try (leaf; fail).
-  destruct (parse_challenge hdr) as [|[| |] ps] eqn:Ech; try (leaf; fail).
+  destruct (parse hdr) as [[| |] ps] eqn:Ech; try (leaf; fail).
   - (* Basic *)
     unfold fetch_basic, final_send. crush.
   - (* Bearer *)
@@ -276,15 +279,15 @@ Qed.
 (* ---------- histories ---------- *)
 Lemma run_history_ok clean cf : forall hist c,
   cache_ok c ->
-  cache_ok (snd (run_history clean cf c hist)) /\
+  cache_ok (snd (run_history clean parse cf c hist)) /\
   Forall2 (fun rs out => trace_ok (rq_host (fst rs)) (fst out))
-          hist (fst (run_history clean cf c hist)).
+          hist (fst (run_history clean parse cf c hist)).
 Proof.
   induction hist as [|[rq script] hist IH]; intros c H; simpl.
   - split; auto.
   - pose proof (do_request_ok clean cf c rq script H) as D.
-    destruct (do_request clean cf c rq script) as [[evs c'] r]. destruct D as [Hc Ht].
-    specialize (IH c' Hc). destruct (run_history clean cf c' hist) as [rest c'']. simpl in *.
+    destruct (do_request clean parse cf c rq script) as [[evs c'] r]. destruct D as [Hc Ht].
+    specialize (IH c' Hc). destruct (run_history clean parse cf c' hist) as [rest c'']. simpl in *.
     destruct IH as [IH1 IH2]. split; auto. constructor; auto. simpl. now apply trace_ok_of_from.
 Qed.
 
@@ -345,7 +348,7 @@ Definition outcome_ok (cf : config) (rq : request) (evs : list event) (r : resul
   | RResp false => exists h a fresh, last evs no_event = (SReg h a fresh, AOk)
   | RResp true =>
     exists h a fresh hdr, last evs no_event = (SReg h a fresh, A401 hdr) /\
-      (fresh = true \/ exists ps, parse_challenge hdr = Ch SchUnknown ps)
+      (fresh = true \/ exists ps, parse hdr = (SchUnknown, ps))
   | RErr ENoCred => cred_empty (cf_creds cf (rq_host rq)) = true
   | RErr EMissing =>
     c_user (cf_creds cf (rq_host rq)) && c_pass (cf_creds cf (rq_host rq)) = false
@@ -371,14 +374,14 @@ Ltac bcrush :=
   end; cbn beta iota); bleaf.
 
 Lemma do_request_budget clean cf c rq script :
-  let '(evs, c', r) := do_request clean cf c rq script in
+  let '(evs, c', r) := do_request clean parse cf c rq script in
   (reg_sends evs <= 3)%nat /\ (fetches evs <= 1)%nat /\ outcome_ok cf rq evs r.
 Proof.
   unfold do_request.
   destruct (match cache_get_scheme (cf_flavour cf) c (rq_host rq) with
             | Some SchBasic => _ | Some SchBearer => _ | _ => _ end) as [attempted a1].
   destruct script as [|[| hdr | id | | ] script1]; try (bleaf; fail).
-  destruct (parse_challenge hdr) as [|[| |] ps] eqn:Ech; try (bleaf; fail).
+  destruct (parse hdr) as [[| |] ps] eqn:Ech; try (bleaf; fail).
   - unfold fetch_basic, final_send. bcrush.
   - set (scopes := if is_empty (get_param s_scope ps) then _ else _).
     set (key := join [c_space] scopes).
@@ -398,19 +401,19 @@ Qed.
    ENoCred/EMissing), the token endpoint and the registry accept it, the schemes
    are known and the body can be re-sent. *)
 Lemma valid_credentials_succeed clean cf c rq script :
-  let '(evs, c', r) := do_request clean cf c rq script in
+  let '(evs, c', r) := do_request clean parse cf c rq script in
   r <> RBad ->
   rq_body rq <> BOnce ->
   r <> RErr ENoCred -> r <> RErr EMissing ->
   (forall s, ~ In (s, AFail) evs) ->
   (forall s, ~ In (s, AErr) evs) ->
   (forall h a hdr, ~ In (SReg h a true, A401 hdr) evs) ->
-  (forall s hdr ps, In (s, A401 hdr) evs -> parse_challenge hdr <> Ch SchUnknown ps) ->
+  (forall s hdr ps, In (s, A401 hdr) evs -> parse hdr <> (SchUnknown, ps)) ->
   r = RResp false /\ (reg_sends evs <= 3)%nat /\ (fetches evs <= 1)%nat /\
   exists h a fresh, last evs no_event = (SReg h a fresh, AOk).
 Proof.
   pose proof (do_request_budget clean cf c rq script) as B.
-  destruct (do_request clean cf c rq script) as [[evs c'] r].
+  destruct (do_request clean parse cf c rq script) as [[evs c'] r].
   destruct B as (B1 & B2 & O).
   intros Hbad Hbody Hnc Hmiss Hfail Herr Hfresh Hknown.
   destruct r as [[|]|[| | | |]|]; simpl in O; try congruence.
@@ -425,13 +428,13 @@ Qed.
 
 (* which credentials are complete for which flow (the causes of ENoCred/EMissing) *)
 Lemma missing_credentials_cause clean cf c rq script :
-  let '(evs, c', r) := do_request clean cf c rq script in
+  let '(evs, c', r) := do_request clean parse cf c rq script in
   (r = RErr ENoCred -> cred_empty (cf_creds cf (rq_host rq)) = true) /\
   (r = RErr EMissing ->
    c_user (cf_creds cf (rq_host rq)) && c_pass (cf_creds cf (rq_host rq)) = false).
 Proof.
   pose proof (do_request_budget clean cf c rq script) as B.
-  destruct (do_request clean cf c rq script) as [[evs c'] r].
+  destruct (do_request clean parse cf c rq script) as [[evs c'] r].
   destruct B as (_ & _ & O). split; intros ->; exact O.
 Qed.
 
@@ -456,7 +459,7 @@ Ltac fcrush :=
 (* nothing is sent after a send that got no response, and a token fetch that
    failed or was cancelled leaves the cache as it was *)
 Lemma do_request_failures clean cf c rq script :
-  let '(evs, c', r) := do_request clean cf c rq script in
+  let '(evs, c', r) := do_request clean parse cf c rq script in
   stops_after_failure evs /\
   ((exists s, last evs no_event = (s, AErr) /\ is_reg (s, AErr) = false) -> c' = c) /\
   ((exists s, last evs no_event = (s, AFail) /\ is_reg (s, AFail) = false) -> c' = c).
@@ -465,7 +468,7 @@ Proof.
   destruct (match cache_get_scheme (cf_flavour cf) c (rq_host rq) with
             | Some SchBasic => _ | Some SchBearer => _ | _ => _ end) as [attempted a1].
   destruct script as [|[| hdr | id | | ] script1]; try (fleaf; fail).
-  destruct (parse_challenge hdr) as [|[| |] ps] eqn:Ech; try (fleaf; fail).
+  destruct (parse hdr) as [[| |] ps] eqn:Ech; try (fleaf; fail).
   - unfold fetch_basic, final_send. fcrush.
   - set (scopes := if is_empty (get_param s_scope ps) then _ else _).
     set (key := join [c_space] scopes).
@@ -473,3 +476,5 @@ Proof.
     destruct (if str_eqb key attempted then None else cache_get_token _ c _ SchBearer key) as [tok2|];
       fcrush.
 Qed.
+
+End WithParse.
